@@ -18,6 +18,7 @@ type LocalDB struct {
 	intx         bool
 	hasbegin     bool
 	kvs          []*types.KeyValue
+	txkvs        int // len(kvs) when the open transaction began: Rollback drops what was buffered after it
 	txid         *types.Int64
 	client       queue.Client
 	api          client.QueueProtocolAPI
@@ -84,6 +85,7 @@ func (l *LocalDB) Begin() {
 	l.keys = nil
 	l.txcache.Reset()
 	l.hasbegin = false
+	l.txkvs = len(l.kvs)
 }
 
 func (l *LocalDB) begin() {
@@ -107,6 +109,7 @@ func (l *LocalDB) save() error {
 			return err
 		}
 		l.kvs = nil
+		l.txkvs = 0
 	}
 	return nil
 }
@@ -146,6 +149,14 @@ func (l *LocalDB) Rollback() {
 		err := l.api.LocalRollback(l.txid)
 		if err != nil {
 			panic(err)
+		}
+	}
+	// the writes buffered by the rolled back transaction must not reach the remote
+	// db with a later save (what was flushed before is undone by LocalRollback above)
+	if l.intx && l.txkvs <= len(l.kvs) {
+		l.kvs = l.kvs[:l.txkvs]
+		if len(l.kvs) == 0 {
+			l.kvs = nil
 		}
 	}
 	l.resetTx()
